@@ -36,6 +36,7 @@ FAULT_POINTS = [
     {"kind": "orphan", "life": "inf", "d": 0.2},
     {"kind": "orphan", "life": 6.0, "d": 0.2},
     {"kind": "orphan", "life": 0.5, "d": 0.1},
+    {"kind": "orphan", "life": "inf", "d": 0.2, "escaped": True},  # it left the helper's process group (setsid, double fork)
     # the function reports progress while it works: a little output again and again, never a silent second
     {"kind": "drip", "every": 0.4, "text": "working...\n", "stream": "out", "for": "inf", "d": 0.2},
     {"kind": "drip", "every": 0.7, "text": "still at it\n", "stream": "err", "for": "inf", "d": 0.3},
@@ -148,7 +149,7 @@ def _op(entry, options, **kw):
 # C10
 SWEEP_CORE = ("K/same_call_body0", "K/two_calls", "K/hash_body", "K/returns_float", "K/prints", "K/spins", "K/lib_same_name",
               "K/first_prints_second_spins", "K/many_calls", "K/nested_constexpr", "R/example/constexpr", "R/case/constexpr_eval")
-SWEEP_REDUCED_KINDS = [3, 4, 9, 13, 17, 22, 25, 28, 30]  # indices into FAULT_POINTS: stall, spawn, crash, garbage(hex), orphan, drip, persist...
+SWEEP_REDUCED_KINDS = [3, 4, 9, 13, 17, 22, 25, 26, 29, 31]  # indices into FAULT_POINTS: stall, spawn, crash, garbage(hex), orphan, drip, persist...
 
 
 def c10_sweep_specs(corp, helper_counts, full=True):
@@ -557,6 +558,9 @@ def c14_directed_specs(corp, hash_seeds):
     ks = [e for e in corp.by_family.get("K", []) if e.get("n", 0) == 0 and "_shifted" not in e["id"]]
     for ci, chunk in enumerate(_chunks(ks, 14)):
         sess([req(e) for e in chunk], "K-pass-%d" % ci)
+        # pipelined: later requests are already waiting in the pipe while a helper runs
+        sess([req(e) for e in chunk], "K-pass-%d-pipelined" % ci, client={"mode": "pipelined", "window": 6, "eager_end": False},
+             thief=[True, False, True, True, False, True])
     # the same under helper faults: every fault point meets the daemon at least once, each followed by a fault-free request
     simple = [e for e in ks if e["id"] in ("K/same_call_body0", "K/same_body_args", "K/hash_body", "K/returns_float", "K/prints", "K/two_calls")]
     pts = [p for p in FAULT_POINTS if p["kind"] != "ok"]
